@@ -23,7 +23,8 @@ from .symx import SymBool, SymInt, SymReal, Unsupported
 
 
 class Claim:
-    def __init__(self, name, term, got=None, want=None, probe=None, sig=None, what=None):
+    def __init__(self, name, term, got=None, want=None, probe=None, sig=None, what=None, ref=None):
+        self.ref = ref            # optional independent numpy reference: (key, idx) / callable on the real outs
         self.name = name
         self.term = term          # z3 Bool that must hold
         self.got = got            # symbolic element / scalar actually produced (for conformance)
@@ -124,8 +125,8 @@ class SymWorld:
                     setattr(m, n, old)
 
     # claims
-    def claim_eq(self, name, got, want, probe=None, sig=None, what=None):
-        self.claims.append(Claim(name, _eq_term(got, want), got, want, probe, sig, what))
+    def claim_eq(self, name, got, want, probe=None, sig=None, what=None, ref=None):
+        self.claims.append(Claim(name, _eq_term(got, want), got, want, probe, sig, what, ref))
 
     def claim(self, name, term, probe=None, sig=None, what=None):
         """Boolean claim; probe(real_outs, val) must return the concrete truth value."""
@@ -300,9 +301,9 @@ class FileWorld(RealWorld):
         raise Unsupported("FileWorld has no model")
 
 
-def do_probe(cl, routs, val):
+def do_probe(cl, routs, val, which="probe"):
     """Declarative probes: (key, idx) -> routs[key][idx]; (key, None) -> routs[key]; callables are applied."""
-    p = cl.probe
+    p = getattr(cl, which)
     if callable(p):
         return p(routs, val)
     key, idx = p
@@ -314,9 +315,11 @@ def do_probe(cl, routs, val):
 
 
 def _plain(v):
-    if isinstance(v, _np.generic):
-        return v.item()
     if isinstance(v, _np.ndarray) and v.ndim == 0:
+        v = v[()]
+    if isinstance(v, _np.floating):
+        return v                      # keep the precision information for the comparison
+    if isinstance(v, _np.generic):
         return v.item()
     return v
 
@@ -397,6 +400,9 @@ def close(a, b, rtol=2e-5, atol=1e-9):
         return a is None and b is None
     if isinstance(a, (bool, _np.bool_)) or isinstance(b, (bool, _np.bool_)):
         return bool(a) == bool(b)
+    for x in (a, b):
+        if isinstance(x, _np.float16):
+            rtol, atol = max(rtol, 4e-3), max(atol, 1e-3)
     a = float(a)
     b = float(b)
     if a != a or b != b:
@@ -416,7 +422,8 @@ class Case:
     engine = "E2:symx+symnp"
     max_paths = 400
     conform_paths = 2
-    timeout_ms = 60000
+    timeout_ms = 20000
+    budget_s = 240          # wall-clock budget per case; exceeding it is reported as inconclusive, never as success
 
     def run(self, w):
         raise NotImplementedError
@@ -427,6 +434,11 @@ class Case:
     # classification of exceptions raised by the real code during run(); default: any exception is a candidate violation
     def expected_exception(self, exc):
         return False
+
+    def same_path(self, sym_outs, real_outs):
+        """Did the real run take the path the model was built for?  (A model of finitely many instances of a
+        universally quantified path fact need not extend to all pixels of the concretised arrays.)"""
+        return True
 
 
 def _replay_script(pid, case_name, values, root):
@@ -462,8 +474,10 @@ def run_case(run, case, deadline=None):
             agg[name] = dict(unsat=0, sat=0, unknown=0, detail="")
             order.append(name)
         agg[name][verdict] += 1
-        if detail and not agg[name]["detail"]:
+        if detail and (not agg[name]["detail"] or (verdict == "unknown" and not agg[name].get("unk_detail"))):
             agg[name]["detail"] = detail
+            if verdict == "unknown":
+                agg[name]["unk_detail"] = True
 
     def body(c):
         w = SymWorld(c)
@@ -471,6 +485,8 @@ def run_case(run, case, deadline=None):
         case.claims(w, outs)
         return w, outs
 
+    if deadline is None:
+        deadline = time.time() + case.budget_s * (4 if run.tier == "thorough" else 1)
     for c, res in symx.explore(body, stats=stats, max_paths=case.max_paths, timeout_ms=case.timeout_ms,
                                seed=run.seed, deadline=deadline):
         n_paths += 1
@@ -498,6 +514,8 @@ def run_case(run, case, deadline=None):
                     note(nm, "unknown", "solver unknown on requirement: " + msg)
             for cl in w.claims:
                 nm = "%s.%s" % (case.name, cl.name)
+                if agg.get(nm, {}).get("sat"):
+                    continue          # already reported once with a replayed counterexample
                 r, m = c.prove(cl.term)
                 if r == "unsat":
                     note(nm, "unsat")
@@ -509,7 +527,7 @@ def run_case(run, case, deadline=None):
             # vacuity twin + shim conformance on the first few paths
             if n_conf < case.conform_paths and w.claims:
                 n_conf += 1
-                _twin_and_conformance(run, case, c, w, note)
+                _twin_and_conformance(run, case, c, w, note, outs)
         except Unsupported as e:
             errors.append("unsupported: %s" % e)
         finally:
@@ -543,10 +561,17 @@ def run_case(run, case, deadline=None):
 
 def _small_model(c, w, cl, m):
     """Prefer a counterexample satisfying the size hints (replayable)."""
-    if not w.hints:
+    hints = list(w.hints) + list(c.model_hints)
+    if not hints:
         return m
-    r, m2 = c._check(*(c.forall_instances() + [z3.Not(cl.term)] + list(w.hints)))
-    return m2 if r == "sat" else m
+    r, m2 = c._check(*(c.forall_instances() + [z3.Not(cl.term)] + hints))
+    if r == "sat":
+        return m2
+    if w.hints:
+        r, m2 = c._check(*(c.forall_instances() + [z3.Not(cl.term)] + list(w.hints)))
+        if r == "sat":
+            return m2
+    return m
 
 
 def _real_run(case, m):
@@ -595,6 +620,15 @@ def _handle_sat(run, case, c, w, m, cl, note, crash=False):
     if cl.probe is None:
         note(nm, "unknown", "claim has no probe; candidate model not replayable")
         return
+    if cl.ref is not None:
+        try:
+            ref_c = do_probe(cl, routs, rw.val, "ref")
+        except Exception as e:
+            ref_c = ("ref-raised", repr(e))
+        if not close(ref_c, want_c):
+            note(nm, "unknown", "z3 spec and numpy reference disagree on the candidate (spec=%r reference=%r): harness error" % (want_c, ref_c))
+            run.errors.append((nm, "spec/reference disagreement"))
+            return
     if close(got_c, want_c):
         # the real code agrees with the spec on this input: the symbolic side (shim / instantiation) was imprecise
         got_s = _concrete(rw, cl.got) if cl.got is not None else None
@@ -622,7 +656,7 @@ def _report(run, case, c, m, nm, sig, what, note, rw=None, cl=None, want_c=None)
         probe = [key, None if idx is None else [int(rw.val(i)) for i in idx]]
     _np.savez_compressed(base + ".inputs.npz", **arrays)
     with open(base + ".inputs.json", "w") as f:
-        json.dump({"scalars": scalars, "probe": probe, "want": _jsonable(want_c), "what": what, "case": case.name,
+        json.dump({"scalars": scalars, "probe": probe, "want": _jsonable(_pyfloat(want_c)), "what": what, "case": case.name,
                    "model": m.sexpr()[:20000]}, f, indent=1, default=str)
     script = (
         "# replay of a solver counterexample for %s / %s against the real code (real numpy, no solver)\n"
@@ -631,6 +665,12 @@ def _report(run, case, c, m, nm, sig, what, note, rw=None, cl=None, want_c=None)
         "sys.exit(e2.replay_from_file(P, %r, %r))\n"
     ) % (run.pid, case.name, run_root(), run.pid, case.name, base)
     run.violation(nm, sig, what, script, engine=case.engine)
+
+
+def _pyfloat(v):
+    if isinstance(v, _np.floating):
+        return float(v)
+    return v
 
 
 def _jsonable(v):
@@ -647,13 +687,13 @@ def run_root():
     return os.environ.get("VERIF_ROOT") or os.path.dirname(os.path.dirname(os.path.abspath(__file__)))
 
 
-def _twin_and_conformance(run, case, c, w, note):
+def _twin_and_conformance(run, case, c, w, note, sym_outs=None):
     """Reachability twin: the path and every claim are jointly satisfiable (no vacuity); then run the real code on the
     model's inputs and compare every claim's produced value with the shim's value under the same model."""
     nm = "%s.twin" % case.name
     r, m = c.reachable(z3.And(*[cl.term for cl in w.claims]) if w.claims else True)
-    if w.hints and r == "sat":
-        r2, m2 = c._check(*(c.forall_instances() + [cl.term for cl in w.claims] + list(w.hints)))
+    if (w.hints or c.model_hints) and r == "sat":
+        r2, m2 = c._check(*(c.forall_instances() + [cl.term for cl in w.claims] + list(w.hints) + list(c.model_hints)))
         if r2 == "sat":
             m = m2
     if r != "sat":
@@ -671,6 +711,9 @@ def _twin_and_conformance(run, case, c, w, note):
         note(cn, "unknown", "real run raised %s: %s" % (type(exc).__name__, exc))
         run.errors.append((cn, "real run of twin model raised %r" % (exc,)))
         return
+    if sym_outs is not None and not case.same_path(sym_outs, routs):
+        note(cn, "unsat", "(skipped on one path: the model of the instantiated path facts does not extend to whole arrays)")
+        return
     bad = []
     nchk = 0
     for cl in w.claims:
@@ -684,6 +727,13 @@ def _twin_and_conformance(run, case, c, w, note):
         got_s = _concrete(rw, cl.got)
         if not close(got_c, got_s):
             bad.append((cl.name, got_c, got_s))
+        if cl.ref is not None and cl.want is not None:
+            try:
+                ref_c = do_probe(cl, routs, rw.val, "ref")
+            except Exception as e:
+                ref_c = ("ref-raised", repr(e))
+            if not close(ref_c, _concrete(rw, cl.want)):
+                bad.append((cl.name + ":spec-vs-reference", ref_c, _concrete(rw, cl.want)))
     if bad:
         note(cn, "unknown", "shim disagrees with real numpy: %r" % (bad[:3],))
         run.errors.append((cn, "shim-conformance failure %r" % (bad[:3],)))
@@ -725,3 +775,57 @@ def replay_from_file(P, case_name, base):
         return 0
     print("REPRODUCED")
     return 1
+
+
+# ------------------------------------------------------------------ process-level parallelism over cases
+
+def _worker(args):
+    modname, tier, only, idx, seed = args
+    import importlib
+    from .core import Run
+    mod = importlib.import_module(modname)
+    sub = Run(mod.__name__.split(".")[-1], tier)
+    sub.only = only
+    cs = mod.cases(tier)[idx]
+    try:
+        run_case(sub, cs)
+    except Exception:
+        sub.error(cs.name, traceback.format_exc())
+    return dict(obs=sub.obs, violations=sub.violations, inconclusive=sub.inconclusive, errors=sub.errors,
+                queries=sub.queries, solver_s=sub.solver_s, replays=sub.replays, known_hit=sub.known_hit)
+
+
+def run_cases_parallel(run, modname, workers=16):
+    """Run every case of props.<modname>.cases(tier) in its own process and merge the records into `run`."""
+    import importlib
+    import multiprocessing as mp
+    mod = importlib.import_module(modname)
+    cases = mod.cases(run.tier)
+    only = getattr(run, "only", None)
+    jobs = [(modname, run.tier, only, i, run.seed) for i, cs in enumerate(cases)
+            if not only or any(o in cs.name for o in only)]
+    if not jobs:
+        return
+    ctxm = mp.get_context("fork")
+    mult = 4 if run.tier == "thorough" else 1
+    pool = ctxm.Pool(min(workers, len(jobs)))
+    try:
+        asyncs = [(j, pool.apply_async(_worker, (j,))) for j in jobs]
+        t_end = time.time() + max(getattr(cs, "budget_s", 240) for cs in cases) * mult * 1.5 + 120
+        for j, a in asyncs:
+            try:
+                res = a.get(timeout=max(1, t_end - time.time()))
+            except mp.TimeoutError:
+                run.ob("%s.budget" % cases[j[3]].name, "inconclusive", "E2", "case exceeded its wall-clock budget (worker killed)")
+                continue
+            run.obs += res["obs"]
+            run.violations += res["violations"]
+            run.inconclusive += res["inconclusive"]
+            run.errors += res["errors"]
+            run.queries += res["queries"]
+            run.solver_s += res["solver_s"]
+            run.replays += res["replays"]
+            run.known_hit += res["known_hit"]
+    finally:
+        pool.terminate()
+        pool.join()
